@@ -87,6 +87,8 @@ pub enum Answer {
 
 #[derive(Default, Clone, Debug)]
 pub struct ObsStats {
+    /// inputs of factor_impl in call order (hook H6), decimal
+    pub inputs: Vec<String>,
     pub adds: u64,
     pub cycles_checked: u64,
     pub stored_checked: u64,
@@ -101,10 +103,19 @@ pub struct RunOut {
 }
 
 /// Install the relation-store observer (C11 oracles R1/R2 inside real sieve runs).
-pub fn install_relation_observer(stats: Rc<RefCell<ObsStats>>) {
+pub fn install_relation_observer(stats: Rc<RefCell<ObsStats>>, check_relations: bool) {
     use yamaquasi::relations::verif::AddEvent;
     simcore::probe::set_observer(Some(Box::new(move |tag, obj| {
-        if tag != "relset_add" {
+        if tag == "factor_impl_input" {
+            if let Some(n) = obj.downcast_ref::<Uint>() {
+                let mut st = stats.borrow_mut();
+                if st.inputs.len() < 256 {
+                    st.inputs.push(uint_dec(n));
+                }
+            }
+            return;
+        }
+        if tag != "relset_add" || !check_relations {
             return;
         }
         let Some(ev) = obj.downcast_ref::<AddEvent>() else {
@@ -174,9 +185,7 @@ pub fn run_factor(
     observe: bool,
 ) -> RunOut {
     let stats = Rc::new(RefCell::new(ObsStats::default()));
-    if observe {
-        install_relation_observer(stats.clone());
-    }
+    install_relation_observer(stats.clone(), observe);
     let s = spec.clone();
     let (sim, res) = run_sim(cfg, move || {
         let mut prefs = Preferences::default();
@@ -821,8 +830,84 @@ pub fn judge(ctx: &SubCtx, out: &RunOut) -> Vec<(String, String, String)> {
     v
 }
 
+/// Single-threaded, fault-free run of the same selector and preferences on a sub-input.
+fn sub_reference(spec: &Spec, n: Uint, with_pred: bool) -> RunOut {
+    let mut s2 = spec.clone();
+    s2.n = n;
+    let mut cfg = SimConfig::reference(0x5b5b_5b5b);
+    cfg.step_cap = REF_STEP_CAP;
+    cfg.wall_limit_ms = Some(8_000);
+    run_factor(&s2, None, with_pred, cfg, false)
+}
+
+fn all_entries_prime(ans: &Option<Answer>) -> bool {
+    match ans {
+        Some(Answer::Factors(l)) => l.iter().all(|f| f.bits() <= 127 && is_prime(u128_of(f))),
+        _ => false,
+    }
+}
+
+/// Sub-call reference gate (C04 only). A threaded run reaches, through the recursion of factor_impl, inputs the
+/// single-threaded reference run never saw (the cofactors depend on which divisors were found). If the failing
+/// sub-input also fails in a single-threaded, fault-free call with the same selector and preferences, the failure
+/// needs no schedule: it is input/configuration-only (C03/C20 territory) and is counted, not judged.
+/// Returns Some(reason) when the finding is input-only.
+fn input_only(ctx: &SubCtx, out: &RunOut, oracle: &str) -> Option<String> {
+    if ctx.prop != "C04" || ctx.is_reference {
+        return None;
+    }
+    if oracle.starts_with("S4") {
+        // every unsplit entry must be splittable single-threaded, else the incompleteness is input-only
+        let Some(Answer::Factors(l)) = &out.answer else {
+            // FactoringFailure: n itself unsplit although the reference run split it: schedule-dependent
+            return None;
+        };
+        let unsplit: Vec<Uint> = l
+            .iter()
+            .filter(|f| !ctx.spec.primes.iter().any(|&p| Uint::from(p) == **f))
+            .copied()
+            .collect();
+        for c in &unsplit {
+            let r = sub_reference(ctx.spec, *c, ctx.with_pred);
+            let ok = r.sim.end == RunEnd::Completed && all_entries_prime(&r.answer);
+            if ok {
+                return None; // single-threaded splits it completely: the threaded run should have, too
+            }
+        }
+        return Some(format!(
+            "the unsplit entries {:?} are not split by a single-threaded call with the same selector and preferences either",
+            unsplit.iter().map(uint_dec).collect::<Vec<_>>()
+        ));
+    }
+    if oracle.starts_with("S2") || oracle.starts_with("S1") {
+        // the sub-input in progress when the run died: the last input of factor_impl that the reference never saw
+        let fresh: Vec<&String> = out.obs.inputs.iter().filter(|i| !ctx.reference.obs.inputs.contains(i)).collect();
+        for i in fresh.iter().rev().take(4) {
+            let n = parse_uint(i);
+            let r = sub_reference(ctx.spec, n, ctx.with_pred);
+            if r.sim.end != RunEnd::Completed {
+                return Some(format!(
+                    "a single-threaded call with the same selector and preferences on the sub-input {} ends the same way ({})",
+                    i,
+                    r.sim.end.class()
+                ));
+            }
+        }
+        return None;
+    }
+    None
+}
+
 fn push_violations(rep: &mut Report, ctx: &SubCtx, out: &RunOut) {
     for (oracle, class, message) in judge(ctx, out) {
+        if let Some(why) = input_only(ctx, out, &oracle) {
+            rep.stat("failures_of_a_sub_call_that_are_input_only", 1);
+            if rep.stats.get("failures_of_a_sub_call_that_are_input_only").copied().unwrap_or(0) <= 1 {
+                simcore::probe::note(why.clone());
+            }
+            rep.stat(&format!("input_only_{}", class.replace(|c: char| !c.is_ascii_alphanumeric(), "_").chars().take(48).collect::<String>()), 1);
+            continue;
+        }
         rep.violations.push(Violation {
             property: ctx.prop.to_string(),
             oracle,
@@ -1047,14 +1132,9 @@ impl Family for FactorFamily {
                 cfg.stall_prob = 0.0;
                 cfg.stall_prob_store = 0.0;
             }
-            if spec.shape.contains("lanczos_final_step") {
-                cfg.rng_bias = match r.below(4) {
-                    0 => simcore::RngBias::LowWeight { prefix: 30000 },
-                    1 => simcore::RngBias::Repeated { prefix: 30000 },
-                    2 => simcore::RngBias::ZeroLanes { prefix: 30000 },
-                    _ => simcore::RngBias::Fair,
-                };
-            }
+            // (the thread_rng stream of Lanczos is fair in this family, with a different seed in every run: a biased
+            // stream may legitimately yield too few dependencies, which would look like a schedule-dependent
+            // incompleteness; biased streams belong to the C14 check)
             let with_pred = need_pred;
             let mut abort_fault = false;
             if prop == "C05" || (prop == "C01" && r.chance(0.5)) {
@@ -1147,6 +1227,7 @@ impl Family for FactorFamily {
         };
         judge(&ctx, &out)
             .into_iter()
+            .filter(|(oracle, _, _)| input_only(&ctx, &out, oracle).is_none())
             .map(|(oracle, class, message)| {
                 let mut r = replay.clone();
                 r["trace"] = trace_to_json(&out.sim);
